@@ -45,6 +45,9 @@ type c14Layout struct {
 	Body    int    `json:"body"`        // bytes of code of the target incl. the final RET
 	Pad     int    `json:"padding"`     // INT3 bytes between target and neighbour
 	Seed    uint64 `json:"seed"`        // instruction-pool choices
+	// Undec > 0 (only with no padding): the bytes right behind the target are not decodable by goom's decoder (AVX-512 code of an
+	// assembly routine, data in text): the extent scan must stop there
+	Undec   int    `json:"undecodable_neighbour,omitempty"`
 	WriteAt int    `json:"write_at"`    // raw write: offset from the region start
 	WriteN  int    `json:"write_len"`
 }
@@ -119,7 +122,7 @@ func c14Perm(addr uintptr, size int) string {
 
 func c14RunLayout(ci interface{}, s *vkit.Stats) error {
 	c := ci.(*c14Layout)
-	if c.Pad == 0 && c.Body < 16 {
+	if c.Pad == 0 && c.Body < 16 && c.Undec == 0 {
 		return nil // not a layout a linker produces and not one goom's extent scan can see (DESIGN 3/C14)
 	}
 	region, err := c14Carve()
@@ -147,6 +150,9 @@ func c14RunLayout(ci interface{}, s *vkit.Stats) error {
 		mem[i] = 0xCC
 	}
 	c14Fill(mem[noff:], nlen, c.Seed+99) // the neighbour function
+	if c.Pad == 0 && c.Undec > 0 {
+		copy(mem[noff:], [][]byte{{0x62, 0xf1, 0x7c, 0x48, 0x10, 0xc0}, {0x06, 0x06, 0x06, 0x06}, {0xd6, 0xd6, 0xd6}}[(c.Undec-1)%3])
+	}
 	for i := noff + nlen; i < noff+nlen+8; i++ {
 		mem[i] = 0xCC
 	}
@@ -163,6 +169,9 @@ func c14RunLayout(ci interface{}, s *vkit.Stats) error {
 	var perr error
 	if r := c03Refusal(func() { g, perr = PtrTrampoline(entry, c14Replacement, nil) }); r != nil {
 		perr = fmt.Errorf("panic: %v", r)
+	}
+	if c.Pad == 0 && c.Undec > 0 {
+		s.Class("target-followed-directly-by-undecodable-bytes")
 	}
 	if perr != nil {
 		if !bytes.Equal(mem, before) {
@@ -273,6 +282,11 @@ func TestVerifC14Synthetic(t *testing.T) {
 			c.PageOff = rapid.OneOf(rapid.IntRange(4080, 4095), rapid.IntRange(0, 4095), rapid.IntRange(4083, 4095)).Draw(rt, "pageoff")
 			c.Body = rapid.OneOf(rapid.IntRange(1, 20), rapid.IntRange(1, 200), rapid.IntRange(10, 16)).Draw(rt, "body")
 			c.Pad = rapid.OneOf(rapid.IntRange(0, 3), rapid.IntRange(0, 40), rapid.IntRange(1, 15)).Draw(rt, "pad")
+			if rapid.IntRange(0, 9).Draw(rt, "undec?") == 0 {
+				c.Pad = 0
+				c.Undec = rapid.IntRange(1, 3).Draw(rt, "undec")
+				c.Body = rapid.IntRange(1, 40).Draw(rt, "body-undec")
+			}
 			if rapid.Bool().Draw(rt, "rawwrite") {
 				c.WriteN = rapid.OneOf(rapid.IntRange(1, 32), rapid.IntRange(1, 9000),
 					rapid.Custom(func(t *rapid.T) int { // whole pages, give or take a few bytes
